@@ -945,3 +945,276 @@ Proof.
     + apply (cache_transparent_den ml fuel h (CLexicalAbc, [ident_pv a]) Wh W2 NF).
     + now apply rebuild_ident_den.
 Qed.
+
+(* ------------------------------------------------ the model never starves *)
+(* With fuel > size of the arguments + 1 no call returns Fuel, so the
+   fuel-exhaustion clause of the theorems above is vacuous for such fuel. *)
+Definition NFm {A} (m : M A) : Prop := forall s, fst (m s) <> Fuel.
+
+Lemma nf_lift {A} (r : R A) : r <> Fuel -> NFm (lift r).
+Proof. intros H s. exact H. Qed.
+Lemma nf_bind {A B} (m : M A) (f : A -> M B) : NFm m -> (forall a, NFm (f a)) -> NFm (bind m f).
+Proof.
+  intros H1 H2 s. unfold bind. specialize (H1 s). destruct (m s) as [[a|e|] s1]; cbn [fst] in *.
+  - apply H2.
+  - discriminate.
+  - now destruct H1.
+Qed.
+
+Lemma build_coords_nf k l : build_coords k l <> Fuel.
+Proof.
+  unfold build_coords. destruct l as [|[i| | |] [|[s| | |] [|]]]; try discriminate.
+  destruct (MAXI k <? i); try discriminate. destruct (s <? 0); try discriminate.
+  destruct (i <? 0); try discriminate. destruct k; discriminate.
+Qed.
+Lemma build_pred_nf l : build_pred l <> Fuel.
+Proof.
+  unfold build_pred. destruct l as [|[i| | |] [|[s| | |] [|[n| | |] rest]]]; try discriminate.
+  destruct (3 <? i); try discriminate. destruct (s <? 0); try discriminate.
+  destruct (n <=? 0); try discriminate. destruct (i <? 0); try discriminate. destruct rest; discriminate.
+Qed.
+Lemma quant_of_nf x : quant_of x <> Fuel.
+Proof. unfold quant_of. destruct x as [| s | |[| |q| |]]; try discriminate. destruct (find _ _); discriminate. Qed.
+Lemma oper_of_nf x : oper_of x <> Fuel.
+Proof. unfold oper_of. destruct x as [| s | |[| | |o|]]; try discriminate. destruct (find _ _); discriminate. Qed.
+Lemma mk_predicated_nf p items : mk_predicated p items <> Fuel.
+Proof. unfold mk_predicated. destruct (params_of_items items); try discriminate. destruct (Nat.eqb _ _); discriminate. Qed.
+Lemma mk_operated_nf o items : mk_operated o items <> Fuel.
+Proof.
+  unfold mk_operated. destruct (sents_of_items items) as [[|x [|y [|]]]|]; try discriminate;
+    destruct (Nat.eqb _ _); discriminate.
+Qed.
+Lemma sys_pred_of_nf s : sys_pred_of s <> Fuel.
+Proof. unfold sys_pred_of. destruct (find _ _); discriminate. Qed.
+
+Lemma pvsize_pos x : (1 <= pvsize x)%nat.
+Proof. destruct x; simpl; lia. Qed.
+Lemma pvsizes_in x l : In x l -> (pvsize x <= pvsizes l)%nat.
+Proof.
+  induction l as [|y l IH]; simpl; intros []; [subst; lia|]. specialize (IH H). lia.
+Qed.
+
+(* classes whose construction never recurses *)
+Definition leaf (k : cls) : bool :=
+  match k with CPredicate | CConstant | CVariable | CAtomic | CQuantifier | COperator => true | _ => false end.
+
+Section NF.
+Variable rec : cls -> list pv -> M item.
+Definition HRec (args : list pv) : Prop :=
+  forall k' a', leaf k' = true \/ (pvsizes a' < pvsizes args)%nat -> NFm (rec k' a').
+
+Lemma map_call_nf args K l : HRec args -> (forall x, In x l -> (pvsize x < pvsizes args)%nat) -> NFm (map_call rec K l).
+Proof.
+  intro HR. induction l as [|x l IH]; cbn [map_call]; intro H.
+  - apply nf_lift. discriminate.
+  - apply nf_bind.
+    + apply HR. right. simpl. specialize (H x (or_introl eq_refl)). lia.
+    + intro a. apply nf_bind; [apply IH; intros y Hy; apply H; now right|]. intro r. apply nf_lift. discriminate.
+Qed.
+
+Lemma items_arg_nf K sel parg rest : HRec (parg :: rest) ->
+  NFm (items_arg rec K sel (match rest with [x] => x | _ => PTup rest end)).
+Proof.
+  intro HR. pose proof (pvsize_pos parg) as Pp.
+  assert (G : forall l, (pvsizes l <= pvsizes rest)%nat -> NFm (items_arg rec K sel (PTup l))).
+  { intros l Hl. cbn [items_arg]. apply (map_call_nf (parg :: rest)); [exact HR|]. intros x Hx.
+    apply pvsizes_in in Hx. simpl. lia. }
+  destruct rest as [|x [|y r]].
+  - apply G. lia.
+  - destruct x as [z|s|l|a]; cbn [items_arg]; try (apply nf_lift; discriminate).
+    + apply G. change (pvsizes [PTup l]) with (pvsize (PTup l) + 0)%nat. rewrite pvsize_tup. lia.
+    + destruct (sel a); apply nf_lift; discriminate.
+  - apply G. lia.
+Qed.
+
+Lemma construct_nf args k : HRec args -> NFm (construct rec k args).
+Proof.
+  intro HR. destruct k; cbn [construct].
+  - apply nf_lift. destruct (unwrap1 args); [apply build_pred_nf|discriminate].
+  - apply nf_lift. destruct (unwrap1 args); [apply build_coords_nf|discriminate].
+  - apply nf_lift. destruct (unwrap1 args); [apply build_coords_nf|discriminate].
+  - apply nf_lift. destruct args as [|x [|]]; try discriminate. apply quant_of_nf.
+  - apply nf_lift. destruct args as [|x [|]]; try discriminate. apply oper_of_nf.
+  - apply nf_lift. destruct (unwrap1 args); [apply build_coords_nf|discriminate].
+  - destruct args as [|parg rest]; [apply nf_lift; discriminate|].
+    apply nf_bind; [apply HR; now left|]. intro a.
+    apply nf_bind; [destruct a; apply nf_lift; discriminate|]. intro p.
+    apply nf_bind; [apply (items_arg_nf _ _ parg rest HR)|]. intro items.
+    apply nf_lift, mk_predicated_nf.
+  - destruct args as [|q [|v [|s [|]]]]; try (apply nf_lift; discriminate).
+    apply nf_bind; [apply nf_lift, quant_of_nf|]. intro a.
+    apply nf_bind; [destruct a; apply nf_lift; discriminate|]. intro qq.
+    apply nf_bind; [apply HR; now left|]. intro a1.
+    apply nf_bind; [destruct a1 as [|[|]| | |]; apply nf_lift; discriminate|]. intro vv.
+    apply nf_bind.
+    { apply HR. right. simpl. pose proof (pvsize_pos q). lia. }
+    intro a2. apply nf_bind; [destruct a2; apply nf_lift; discriminate|]. intro b.
+    apply nf_lift. discriminate.
+  - destruct args as [|oarg rest]; [apply nf_lift; discriminate|].
+    apply nf_bind; [apply nf_lift, oper_of_nf|]. intro a.
+    apply nf_bind; [destruct a; apply nf_lift; discriminate|]. intro o.
+    apply nf_bind; [apply (items_arg_nf _ _ oarg rest HR)|]. intro items.
+    apply nf_lift, mk_operated_nf.
+  - apply nf_lift; discriminate.
+  - apply nf_lift; discriminate.
+  - apply nf_lift; discriminate.
+  - apply nf_lift; discriminate.
+Qed.
+
+Lemma fallback_nf args c k : HRec args -> NFm (fallback rec c k args).
+Proof.
+  intros HR s. unfold fallback. destruct (concrete k || _); [discriminate|].
+  destruct args as [|x [|y r0]]; try discriminate; try (repeat match goal with |- context [match ?v with _ => _ end] => is_var v; destruct v end; cbn; discriminate).
+  destruct x as [z|s0|l|a0]; try discriminate.
+  destruct l as [|a [|b [|d l']]]; try discriminate; try (destruct a; discriminate);
+    try (destruct a; destruct b; discriminate).
+  destruct a as [z|cn|l|a0]; try discriminate.
+  destruct b as [z|s0|sp|a0]; try discriminate.
+  destruct (cls_of_name cn) as [C|]; [|discriminate].
+  destruct (negb _); [discriminate|].
+  destruct (lookup c s (cn, sp)); [discriminate|].
+  assert (H : NFm (rec C sp)).
+  { apply HR. right.
+    change (pvsizes [PTup [PStr cn; PTup sp]]) with (pvsize (PTup [PStr cn; PTup sp]) + 0)%nat.
+    rewrite pvsize_tup. change (pvsizes [PStr cn; PTup sp]) with (1 + (pvsize (PTup sp) + 0))%nat.
+    rewrite pvsize_tup. lia. }
+  specialize (H s). destruct (rec C sp s) as [[inst|e|] s2]; cbn [fst] in *; try discriminate.
+  now destruct H.
+Qed.
+End NF.
+
+Lemma special_nf c k args r : special c k args = Some r -> r <> Fuel.
+Proof.
+  unfold special.
+  destruct (match args with
+            | [PItem a0] => if issub (item_cls a0) k then Some (OK a0) else None
+            | [PStr s] => match k with CPredicate => Some (sys_pred_of s) | _ => None end
+            | _ => None
+            end) as [r0|] eqn:E.
+  - intros [= <-]. destruct args as [|[z|s|l|a0] [|y r1]]; try discriminate E.
+    + destruct k; try discriminate E. injection E as <-. apply sys_pred_of_nf.
+    + destruct (issub _ _); [|discriminate E]. injection E as <-. discriminate.
+  - destruct k; try discriminate. destruct (sysfix c); [|discriminate].
+    destruct (sys_lookup _); [|discriminate]. cbn [option_map]. intros [= <-]. discriminate.
+Qed.
+
+Lemma call_step_nf f c k args :
+  (forall k' a', leaf k' = true \/ (pvsizes a' < pvsizes args)%nat -> NFm (call f c k' a')) ->
+  NFm (call (S f) c k args).
+Proof.
+  intros HR s. rewrite call_unfold.
+  assert (G : fst (match special c k args with
+                   | Some r => lift r
+                   | None => fun st =>
+                       match lookup c st (cls_name k, args) with
+                       | Some v => (OK v, st)
+                       | None =>
+                           match construct (call f c) k args st with
+                           | (OK inst, st1) => (OK inst, save2 c st1 (cls_name k, args) inst)
+                           | (Err ETypeError, st1) => fallback (call f c) c k args st1
+                           | other => other
+                           end
+                       end
+                   end s) <> Fuel).
+  { destruct (special c k args) as [r|] eqn:ES; [exact (special_nf _ _ _ _ ES)|].
+    destruct (lookup c s (cls_name k, args)); [discriminate|].
+    pose proof (construct_nf (call f c) args k HR s) as H.
+    destruct (construct (call f c) k args s) as [[inst|[|]|] st1]; cbn [fst] in *; try discriminate.
+    - now apply (fallback_nf (call f c) args).
+    - now destruct H. }
+  destruct k; try exact G; now apply (construct_nf (call f c) args).
+Qed.
+
+Lemma leaf_nf f c k args : leaf k = true -> NFm (call (S f) c k args).
+Proof.
+  intros HL s. rewrite call_unfold.
+  destruct k; try discriminate HL; cbn [construct];
+    try (destruct (special c _ args) as [r|] eqn:ES; [exact (special_nf _ _ _ _ ES)|];
+         destruct (lookup c s _); [discriminate|]; cbn [lift];
+         match goal with |- context [match ?u with Some l => ?b l | None => ?e end] =>
+           destruct u as [l|] end).
+  all: try (match goal with |- context [build_pred ?l] =>
+              pose proof (build_pred_nf l) as H; destruct (build_pred l) as [x|[|]|]; cbn; try discriminate;
+              now destruct H end).
+  all: try (match goal with |- context [build_coords ?k ?l] =>
+              pose proof (build_coords_nf k l) as H; destruct (build_coords k l) as [x|[|]|]; cbn; try discriminate;
+              now destruct H end).
+  all: try (cbn; discriminate).
+  - destruct args as [|x [|]]; cbn; try discriminate. apply quant_of_nf.
+  - destruct args as [|x [|]]; cbn; try discriminate. apply oper_of_nf.
+Qed.
+
+(* T: enough fuel is size + 2 *)
+Theorem call_nf n : forall c k args, (pvsizes args + 2 <= n)%nat -> NFm (call n c k args).
+Proof.
+  induction n as [|f IH]; intros c k args H; [lia|].
+  apply call_step_nf. intros k' a' [HL|HS].
+  - destruct f as [|f']; [lia|]. now apply leaf_nf.
+  - apply IH. lia.
+Qed.
+
+(* ------------------------------------------- the unconditional statements *)
+(* T cache_transparent, full strength: any maxlen, any history, any call; with
+   fuel >= size of the call's arguments + 2 (fuel is a device of the model, not
+   of the code) the cached call and the cache-free construction return the
+   same thing, and neither starves. *)
+Theorem cache_transparent_total ml fuel h o : hist_wf h = true -> args_wf (snd o) = true ->
+  (pvsizes (snd o) + 2 <= fuel)%nat ->
+  let st := snd (run fuel (cached ml) h empty) in
+  let r := fst (call fuel (cached ml) (fst o) (snd o) st) in
+  r <> Fuel /\ r = build0 fuel (fst o) (snd o) /\ Den (fst o) (snd o) r.
+Proof.
+  intros Wh Wo Hf st r.
+  assert (NF : r <> Fuel) by (apply (call_nf fuel (cached ml) (fst o) (snd o) Hf)).
+  assert (NF0 : build0 fuel (fst o) (snd o) <> Fuel) by (apply (call_nf fuel nocache (fst o) (snd o) Hf)).
+  split; [exact NF|]. split.
+  - now apply cache_transparent.
+  - now apply cache_transparent_den.
+Qed.
+
+(* T rebuild, full strength *)
+Theorem rebuild_total a fuel : wf_item a = true ->
+  ((pvsizes (spec_args a) + 2 <= fuel)%nat -> rebuild_spec fuel a = OK a) /\
+  ((pvsizes [ident_pv a] + 2 <= fuel)%nat -> rebuild_ident fuel a = OK a).
+Proof.
+  intro W. split; intro Hf.
+  - apply (DenM_agree (fun n => call n nocache (item_cls a) (spec_args a))).
+    + apply build0_den; [apply spec_args_wf|apply (call_nf fuel nocache _ _ Hf)].
+    + now apply rebuild_spec_den.
+  - apply (DenM_agree (fun n => call n nocache CLexicalAbc [ident_pv a])).
+    + apply build0_den; [apply ident_args_wf|apply (call_nf fuel nocache _ _ Hf)].
+    + now apply rebuild_ident_den.
+Qed.
+
+(* ... and through the cache, after any history, with any maxlen *)
+Theorem rebuild_cached_total ml fuel h a : hist_wf h = true -> wf_item a = true ->
+  let st := snd (run fuel (cached ml) h empty) in
+  ((pvsizes (spec_args a) + 2 <= fuel)%nat ->
+     fst (call fuel (cached ml) (item_cls a) (spec_args a) st) = OK a) /\
+  ((pvsizes [ident_pv a] + 2 <= fuel)%nat ->
+     fst (call fuel (cached ml) CLexicalAbc [ident_pv a] st) = OK a).
+Proof.
+  intros Wh W st. destruct (rebuild_cached ml fuel h a Wh W) as [A B].
+  split; intro Hf; [apply A|apply B]; apply (call_nf fuel (cached ml) _ _ Hf).
+Qed.
+
+(* Non-vacuity: the witness history of the old defect now rebuilds, warm and
+   evicted, and the hypotheses of the theorems hold for it. *)
+Definition nv_a : item := IParam (Const 0 0).
+Definition nv_s : item := ISent (Pred Identity [Const 0 0; Const 0 0]).
+Definition nv_make : op := (CPredicated, [PItem (IPred Identity); PTup [PItem nv_a; PItem nv_a]]).
+Definition nv_other : op := (CConstant, [PInt 1; PInt 0]).
+Definition nv_rebuild : op := (CSentence, [ident_pv nv_s]).
+Example nonvacuous_transparent :
+  hist_wf [nv_make; nv_rebuild; nv_other] = true /\ args_wf (snd nv_rebuild) = true /\
+  (pvsizes (snd nv_rebuild) + 2 <= 40)%nat /\
+  fst (run 40 (cached 1) [nv_make; nv_rebuild; nv_other; nv_rebuild; (CPredicated, spec_args nv_s)] empty)
+    = [OK nv_s; OK nv_s; OK (IParam (Const 1 0)); OK nv_s; OK nv_s] /\
+  build0 40 CSentence [ident_pv nv_s] = OK nv_s.
+Proof. repeat split; vm_compute; try reflexivity. lia. Qed.
+Example nonvacuous_rebuild :
+  wf_item nv_s = true /\ wf_item (IPred Existence) = true /\
+  rebuild_spec 40 nv_s = OK nv_s /\ rebuild_ident 40 nv_s = OK nv_s /\
+  rebuild_spec 40 (IPred Existence) = OK (IPred Existence) /\
+  rebuild_ident 40 (IPred Identity) = OK (IPred Identity).
+Proof. repeat split; vm_compute; reflexivity. Qed.
